@@ -19,7 +19,7 @@ def replay(ctx):
     if "trace" in art:
         cfg = art.get("cfg", ns.CFG_OBS)
         ns.validate(ctx, art["trace"], [art.get("stats")], "replay", art.get("how", {}), cfg=cfg,
-                    sig_override=ns.INFLIGHT_SIG if cfg == ns.CFG_INFLIGHT else None)
+                    inflight_sig=(cfg == ns.CFG_INFLIGHT))
     elif "args" in art:
         a = art["args"]
         opt = dict(zip(a[0::2], a[1::2]))
@@ -33,6 +33,7 @@ def replay(ctx):
 
 
 def run(ctx):
+    del ns.DRIFT[:]
     if ctx.replay:
         return replay(ctx)
     q = ctx.quick
@@ -85,8 +86,13 @@ def run(ctx):
         reps += ns.e2e(ctx, ctx.seed + 1000, 64, 8, "e2e-b")
 
     # ---- reads while a prune round is running (Checkpoint done, DeleteHist not yet): design-level finding
+    # (deterministic: fixed histories, independent of VERIF_SEED; only a successful-but-different read of a block inside
+    #  [base, target) during the round carries the in-flight signature, anything else is reported under its own)
     ns.inflight_probe(ctx)
-    ns.e2e(ctx, ctx.seed, 40, 1, "e2e-inflight", inflight=True)
+    ns.e2e(ctx, 1, 40, 1, "e2e-inflight", inflight=True)
+
+    if ns.DRIFT and not ctx.violations:
+        raise Infra("; ".join(ns.DRIFT[:3]))
 
     # ---- evidence
     nontrivial = [s for s in stats if s["prunes"] >= 1 and s["dedupServed"] > 0]
